@@ -8,8 +8,10 @@ EXTENDS Naturals, Sequences, TLC, Json, IOUtils
 
 Obs == JsonDeserialize(IOEnv.TRACE_FILE)
 N == Len(Obs)
-FreshIdx(p) == CHOOSE i \in 1..N : Obs[i].hlen = 0 /\ Obs[i].probe = p
-HasFresh(p) == \E i \in 1..N : Obs[i].hlen = 0 /\ Obs[i].probe = p
+\* (the reference records are found once: a constant, not a search per record)
+FreshRecs == {i \in 1..N : Obs[i].hlen = 0}
+FreshIdx(p) == CHOOSE i \in FreshRecs : Obs[i].probe = p
+HasFresh(p) == \E i \in FreshRecs : Obs[i].probe = p
 
 VARIABLES i, st
 Verdict(r) == IF ~HasFresh(r.probe) THEN "NoFreshReference"
